@@ -10,6 +10,9 @@ import (
 //
 // See https://www.w3.org/TR/2019/REC-wasm-core-1-20191205/#custom-section%E2%91%A0
 func decodeCustomSection(r *bytes.Reader, name string, limit uint64) (result *wasm.CustomSection, err error) {
+	if err = checkRemaining(r, limit); err != nil {
+		return nil, err
+	}
 	buf := make([]byte, limit)
 	_, err = r.Read(buf)
 
